@@ -41,6 +41,7 @@ def tasks(tier):
             ts.append(Task('verifHarness_C08_fix', [1, shape, 4, sl], pkg='.'))
             ts.append(Task('verifHarness_C08_fix', [2, shape, 4, sl], pkg='.'))
             ts.append(Task('verifHarness_C08_fix', [2, shape, 5, sl], pkg='.'))
+            ts.append(Task('verifHarness_C08_fix', [2, shape, 6, sl], pkg='.'))
     return ts
 
 
@@ -50,7 +51,7 @@ def required_reach(tier):
 
 def bounds(tier):
     return {'no_dialect': 'v1 / v2 / signed v2, payload lengths 0,1,3,255 (quick) or 0,1,2,3,9,64,254,255 (thorough), every byte symbolic',
-            'fixframe': 'received frame with arbitrary header and stale checksum/signature, message = arbitrary value of each harness shape (the edit), FixFrame, forward, next hop with InKey = OutKey: v1, v2 unsigned, v2 signed with an outgoing key, v2 unsigned on a node that has an outgoing key (next hop without a key), a signed frame whose checksum is already right (re-signing), a frame edited and fixed a second time (v1, v2, signed); the forwarded stream holds nothing but the frame',
+            'fixframe': 'received frame with arbitrary header and stale checksum/signature, message = arbitrary value of each harness shape (the edit), FixFrame, forward, next hop with InKey = OutKey: v1, v2 unsigned, v2 signed with an outgoing key, v2 unsigned on a node that has an outgoing key (next hop without a key), a signed frame whose checksum is already right (re-signing), a frame edited and fixed a second time (v1, v2, signed), a signed frame fixed by a node without an outgoing key (next hop without a key); the forwarded stream holds nothing but the frame',
             'dialect': 'harness dialect (4 shapes); v1 at the exact base length; v2 payload lengths 0,1,2 and around base/extended size and +1,+2 (quick) / '
                        'every length 0..extended+2 (thorough); every payload byte symbolic (so canonical, zero-padded, '
                        'bytes-after-NUL and unknown-trailing-bytes encodings are all included); checksum = spec value; signed v2 frames (arbitrary signature block, hops without a key) at the base and extended+1 lengths (quick) / every length (thorough)'}
